@@ -357,6 +357,17 @@ func (p *Pkg) Observe(root interface{}) *Model {
 	return m
 }
 
+// ObserveAny observes any GoStruct pointer (not only the root) as a model rooted at it.
+func (p *Pkg) ObserveAny(s interface{}) *Model {
+	p.Schema()
+	m := NewModel()
+	v := reflect.ValueOf(s)
+	if v.Kind() == reflect.Ptr && !v.IsNil() && v.Elem().Kind() == reflect.Struct {
+		p.observeStruct(m, v.Elem(), nil)
+	}
+	return m
+}
+
 func lastWithKeys(prefix Path, names []string, keys []KV) Path {
 	out := prefix.Names(names...)
 	out[len(out)-1].Keys = keys
